@@ -347,6 +347,7 @@ func (st *State) assignTo(lhs ast.Expr, v Val) {
 		bt := st.typeOf(x.X)
 		if classify(bt) == tcMap {
 			m := st.eval(x.X)
+			st.checkGuardedMutation(x.X)
 			k := st.eval(x.Index)
 			st.mapStore(m, bt, k, st.coerce(v, bt.Underlying().(*types.Map).Elem()), x.Pos(), exprStr(x.X))
 			return
